@@ -38,8 +38,24 @@ Definition pred_hit (p : pred) (x : option Q) : bool :=
   | PNan, None => true
   | _, _ => false
   end.
-Inductive redop := RMean | RMedian.
-Definition red_fn (o : redop) : qrow -> option Q := match o with RMean => nanmean | RMedian => nanmedian end.
+(* the `operation` of reduce / the `reduce_fnc` of baseline, applied to ONE row (the property: "applies the operation per
+   row").  RMean .. RVar ignore NaN (np.nanmean, nanmedian, nansum, nanmax, nanmin, max - min of the valid samples,
+   nanvar); RStrict o is the plain NumPy reducer (np.mean, np.median, np.sum, np.max, np.min, np.ptp, np.var): NaN as
+   soon as the row holds a NaN, otherwise o. *)
+Inductive redop := RMean | RMedian | RSum | RMax | RMin | RPtp | RVar | RStrict (o : redop).
+Definition qpick (keep_first : Q -> Q -> bool) (l : list Q) : option Q :=
+  match l with [] => None | x :: t => Some (fold_left (fun a b => if keep_first a b then a else b) t x) end.
+Definition nansum (r : qrow) : option Q := Some (qsum (valid r)).
+Definition nanmax (r : qrow) : option Q := qpick (fun a b => Qle_bool b a) (valid r).
+Definition nanmin (r : qrow) : option Q := qpick Qle_bool (valid r).
+Definition nanptp (r : qrow) : option Q := lift2 Qminus (nanmax r) (nanmin r).
+Definition has_nan (r : qrow) : bool := existsb (fun x => match x with None => true | Some _ => false end) r.
+Fixpoint red_fn (o : redop) : qrow -> option Q :=
+  match o with
+  | RMean => nanmean | RMedian => nanmedian | RSum => nansum | RMax => nanmax | RMin => nanmin | RPtp => nanptp
+  | RVar => nanvar
+  | RStrict o' => fun r => if has_nan r then None else red_fn o' r
+  end.
 
 Definition o_endlock (s : list qrow) obs : bool := obs_is (endlock s) obs.
 Definition o_lock (s : list qrow) (lk : list Z) obs (zp : Z) : bool :=
